@@ -61,6 +61,8 @@ inductive Err where
   | fuel                      -- model artefact only (never reached: `Properties/C10.sorted_no_fuel`)
   deriving DecidableEq, Repr
 
+deriving instance DecidableEq for Except
+
 def lookup {β : Type} (d : List (Name × β)) (n : Name) : Option β :=
   match d with
   | [] => none
@@ -396,17 +398,25 @@ structure WriteLog where
   deriving Repr, DecidableEq
 
 /-- the state of the target directory: file name ↦ bytes -/
-abbrev Dir := List (Name × String)
+abbrev Dir := Name → Option String
 
-def writeFile (dir : Dir) (f : Name) (bytes : String) : Dir :=
-  (f, bytes) :: dir.filter (fun p => p.1 != f)
+/-- `Path.write_text`: create or truncate -/
+def writeFile (dir : Dir) (f : Name) (bytes : String) : Dir := fun x => if x = f then some bytes else dir x
 
-def applyLog (dir : Dir) (log : WriteLog) : Dir := log.written.foldl (fun d (f, b) => writeFile d f b) dir
+def applyLog (dir : Dir) (log : WriteLog) : Dir := log.written.foldl (fun d p => writeFile d p.1 p.2) dir
 
 /-- `texts`: the rendered files in the order `generate` writes them.  The existing directory `_dir`
     is an argument that is never inspected: that IS the content of the model (`package.py` has no
-    `read_text`/`exists` on target files other than the `mkdir` guard). -/
+    `read_text`/`exists` on target files other than the `mkdir` guard; audited on every run by
+    harness/c10.py `audit_fs`). -/
 def packageWrites (texts : List (Name × String)) (_dir : Dir) : WriteLog :=
   { written := texts, printed := pySorted (texts.map (·.1)) }
+
+/-- One run of a generator over the directory `dir`.  `irs` = the files in write order, before
+    formatting; `render flag ir` = the formatter pipeline, where `flag i` says whether isort, while
+    formatting the i-th file, found the target package in the working directory (the only way the
+    pipeline can see the file system: first-party detection, finding C10-F3). -/
+def runWrites {α : Type} (render : Bool → α → String) (irs : List (Name × α)) (flag : Nat → Bool) (dir : Dir) : WriteLog :=
+  packageWrites (irs.mapIdx (fun i p => (p.1, render (flag i) p.2))) dir
 
 end Ariadne.Order
